@@ -476,7 +476,10 @@ func (h *Session) icmp6SendPacket(srcAddr Addr, dstAddr Addr, b []byte) error {
 
 	ether = EncodeEther(ether, syscall.ETH_P_IPV6, h.NICInfo.HostAddr4.MAC, dstAddr.MAC)
 	ip6 := EncodeIP6(ether.Payload(), hopLimit, srcAddr.IP, dstAddr.IP)
-	ip6, _ = ip6.AppendPayload(b, syscall.IPPROTO_ICMPV6)
+	var err error
+	if ip6, err = ip6.AppendPayload(b, syscall.IPPROTO_ICMPV6); err != nil { // a message that does not fit the buffer: refuse (the error was dropped and ip6.Src() below panicked)
+		return err
+	}
 	ether, _ = ether.SetPayload(ip6)
 
 	// Calculate checksum of the pseudo header
